@@ -56,9 +56,9 @@ def run_enum(prop, tier, legs, rule, nontrivial_counter, level="model_checking",
         "states": max(cases, 0),
         "transitions": max(counters.get("library_calls", cases), 0),
         "traces_validated_against_impl": cases,
-        "evaluations": cases,
+        "evaluations": max(cases, counters.get("library_calls", 0)),
         "distinct_nontrivial": counters.get(nontrivial_counter, 0),
-        "rule": rule,
+        "rule": rule + " | states = case ids executed; transitions/evaluations = library runs (a case may run many); distinct_nontrivial counts the unit named in the rule",
         "samples": samples or ["(no sample emitted)"],
         "exhaustive": len([e for r in results for e in r.errors]) == 0 and counters.get("worker_deaths", 0) == len([f for f in all_fail if f.get("crash")]),
         "space_size": counters.get("total_cases_in_space", 0),
